@@ -180,8 +180,7 @@ def decodeByte (reg : Registry) (count : Nat) (bits : List Bool) (eci : Option E
       match guessCharset reg bytes hint with
       | .error (.panic w) => .error (.panic w)
       | .error _ => .error .format
-      | .ok none => .error (.panic "nil encoding.Encoding: NewDecoder")
-      | .ok (some cs) => .ok (cs, bytes, bits)
+      | .ok cs => .ok (cs, bytes, bits)
 
 structure PSt where
   segs : List Seg := []
@@ -374,8 +373,9 @@ structure Matrix where
   dim : Nat
   bit : Nat → Nat → Bool
 
+/-- `BitMatrix.Get` answers `false` outside the matrix (it never panics) -/
 def Matrix.get (m : Matrix) (x y : Nat) : Res Bool :=
-  if x < m.dim ∧ y < m.dim then .ok (m.bit x y) else .error (.panic "BitMatrix.Get out of range")
+  if x < m.dim ∧ y < m.dim then .ok (m.bit x y) else .ok false
 
 structure Parser where
   m : Matrix
